@@ -263,3 +263,7 @@ Definition resp_read (cfg : hcfg) (bsize : nat) (input : bytes) (final : peek_er
 (* ResponseHeader.Read over a source that yields input k bytes at a time (see ReqHead.read_loop) *)
 Definition resp_read_chunks (cfg : hcfg) (bsize k : nat) (input : bytes) (final : peek_err) : try_res resp_head :=
   read_loop (resp_try_read cfg) (length input + 2) 1 bsize k [] input final.
+
+(* ResponseHeader.Read over a delivery schedule followed by an idle connection (see ReqHead.read_idle) *)
+Definition resp_read_idle (cfg : hcfg) (bsize : nat) (chunks : list bytes) : idle_res resp_head :=
+  read_idle (resp_try_read cfg) (length (concat chunks) + 2) bsize [] (nonempty_chunks chunks) 0.
